@@ -84,6 +84,61 @@ def strategy(tier):
     return _case()
 
 
+def _integer_mask_counts(sc):
+    """the same screen with its mask given as 0/1 integers (files written by tools without a boolean type): wherever the package
+    accepts such a screen - construction, save/load, reveal, the metadata command - the plate counts it reports are those of the
+    mask; a refusal (ValueError / TypeError) of the representation is fine and ends this part"""
+    import json as _json
+
+    from batchie.data import Screen
+    from batchie.retrospective import reveal_plates
+
+    tn, td, sn, pn, ob, mask = S.arrays(dict(sc, layout=None))
+    if len(sn) == 0 or np.isnan(ob).any():
+        return None
+    paths = []
+    try:
+        try:
+            scr = Screen(treatment_names=tn, treatment_doses=td, sample_names=sn, plate_names=pn, observations=ob, observation_mask=mask.astype(np.uint8), control_treatment_name=sc["control"])
+        except (ValueError, TypeError):
+            return "integer-mask-refused"
+        status = {}
+        for p_, m_ in zip(pn.tolist(), mask.tolist()):
+            status[p_] = bool(m_)
+
+        def counts(s_, tag):
+            a, o = tmp.fresh("im.h5"), tmp.fresh("im.json")
+            paths.extend([a, o])
+            try:
+                s_.save_h5(a)
+                run_cli("extract_screen_metadata", ["--screen", a, "--output", o])
+            except (ValueError, TypeError):
+                return False
+            meta = _json.load(open(o))
+            nu = sum(1 for v in status.values() if not v)
+            require(meta["n_unobserved_plates"] == nu and meta["n_observed_plates"] == len(status) - nu, "integer_mask.metadata." + tag, lambda: "mask given as 0/1 integers: metadata reports %r unobserved / %r observed plates, the mask has %d / %d" % (meta["n_unobserved_plates"], meta["n_observed_plates"], nu, len(status) - nu))
+            return True
+
+        if not counts(scr, "initial"):
+            return "integer-mask-refused"
+        name_to_id = {str(k): int(v) for k, v in zip(*scr.plate_mapping)}
+        unobs = sorted(p_ for p_, v in status.items() if not v)
+        for p_ in unobs[:2]:
+            vals = ob[pn == p_]
+            if np.all(vals == 0):
+                continue
+            try:
+                scr = reveal_plates(scr, [name_to_id[p_]])
+            except (ValueError, TypeError):
+                return "integer-mask-refused"
+            status[p_] = True
+            if not counts(scr, "after_reveal"):
+                return "integer-mask-refused"
+        return "integer-mask-counted"
+    finally:
+        tmp.cleanup(*paths)
+
+
 def _check_state(cur, sc, frozen, model, tag):
     rows = sc["rows"]
     n = len(rows)
@@ -234,6 +289,9 @@ def check_case(case):
     require(S.same_bits(ao[~sel], before_o[~sel]) and np.array_equal(am[~sel], before_m[~sel]), "set_observed.others_untouched", "rows outside the selection changed")
 
     labels = ["reveals=%d" % min(reveals, 3)] + (["branched-history"] if branched else [])
+    lab = _integer_mask_counts(sc)
+    if lab:
+        labels.append(lab)
     if touched_old:
         labels.append("touches-observed-or-unknown-or-repeated")
     return {"nontrivial": reveals >= 2 and touched_old, "labels": labels, "counts": {"ops": len(case["ops"])}}
